@@ -104,18 +104,41 @@ def outcome(fn):
         return ('exc', type(e).__name__)
 
 
-def eval_formula(formula, cells=None, addr='Z9', overrides=None, sheets=None):
+def _perturbed(v):
+    """a different constant of the same kind (for the decoy sheet)"""
+    if isinstance(v, bool):
+        return not v
+    if isinstance(v, int):
+        return v + 1000
+    if isinstance(v, float):
+        return v * 3 + 0.5
+    if isinstance(v, datetime.datetime):
+        return v + datetime.timedelta(days=40)
+    if isinstance(v, str) and not v.startswith('='):
+        return 'q' + v
+    return v
+
+
+def eval_formula(formula, cells=None, addr='Z9', overrides=None, sheets=None, decoy=True):
+    """The value of `formula` written at `addr` of the first sheet.  The workbook also gets a DECOY sheet in front of it: the same cell
+    texts (formulas included) at the same addresses over different constants.  Whatever the translation remembers about a formula text, an
+    area text or an address must not leak from one sheet to the other."""
     cells = dict(cells or {})
     cells[addr] = formula
     sh = sheets if sheets is not None else [('S', cells)]
     if sheets is not None:
         sh = [(t, dict(c)) for t, c in sheets]
         sh[0][1][addr] = formula
+    shift = 0
+    if decoy:
+        sh = [('Decoy 0', {a: _perturbed(v) for a, v in sh[0][1].items()})] + list(sh)
+        shift = 1
+
     def go():
         cl = build(sh)
         e = executor(cl)
         if overrides:
-            e.set_cells(overrides)
+            e.set_cells([Cell(o.title + shift if isinstance(o.title, int) else o.title, o.column, o.row, o.value) for o in overrides] if shift else overrides)
         c, r = a1(addr)
-        return e.get_cell(Cell(0, c, r)).value
+        return e.get_cell(Cell(shift, c, r)).value
     return outcome(go)
